@@ -124,7 +124,7 @@ def compare(ctx, infr, infr2, inam2, e1, e2, mode, case, tag):
     if np.any(np.abs(smean - H.mean(axis=0)) > 1e-12 * Ha.mean(axis=0) + 1e-300):
         ctx.violation('holo-mean', "squash_time='mean' differs from the mean over time of the full output", case)
         return
-    if not all(np.array_equal(a, b) for a, b in zip(keep, (infr, infr2, inam2))):
+    if not all(np.array_equal(a, b, equal_nan=True) for a, b in zip(keep, (infr, infr2, inam2))):
         ctx.violation('holo-mutates-input', 'holospectrum modified its input arrays', case)
         return
     ctx.count('agree:' + tag)
@@ -222,6 +222,13 @@ def run_shard(ctx):
             inam2[rng.integers(0, T), :, :] = 0.0  # a time point without any energy
             ctx.count('with_silent_time_point')
         mode = gens.pick(rng, ['energy', 'amplitude'])
+        if rng.random() < .12:
+            # a blanked artefact: a few frequency estimates are NaN (such a sample belongs to no bin, the others are binned as usual)
+            if rng.random() < .5:
+                infr[rng.integers(0, T), rng.integers(0, M)] = np.nan
+            else:
+                infr2[rng.integers(0, T), rng.integers(0, M), rng.integers(0, K)] = np.nan
+            ctx.count('cases_with_nan_frequencies')
         if rng.random() < .15:
             # the unit of frequency is the caller's: the same recording and both bin sets in Hz for very slow / very fast processes
             u = float(gens.pick(rng, [1e-9, 1e-6, 1e6]))
